@@ -123,7 +123,7 @@ def check_graph(g, nodes, links):
 def run_graph_case(case):
     g = build(case)
     info = check_graph(g, case["nodes"], case["links"])
-    classes = ["graph:%d_nodes" % min(len(case["nodes"]), 9)]
+    classes = ["graph:%d_nodes" % min(len(case["nodes"]), 9)] + (["real_graph_window"] if case.get("real_window") else [])
     if any(l[0] == l[2] for l in case["links"]):
         classes.append("self_link")
     seen = set()
@@ -315,6 +315,13 @@ def machine(tier, stats):
 
 @st.composite
 def strategy_(draw, tier):
+    if tier == "thorough" and draw(st.integers(0, 9)) == 0:
+        from vf import realgraph
+
+        g = realgraph.window(draw(st.integers(0, realgraph.n_elements() - 3)), draw(st.integers(3, 40)))
+        order = draw(st.permutations(list(g["nodes"])))
+        return {"kind": "graph", "nodes": list(order), "links": [[l[0], l[1], l[2], l[3], 0] for l in g["links"]],
+                "real_window": g["real_window"]}
     n = draw(st.integers(7, 14))
     ids = ["n%d" % i for i in range(n)]
     # a random tree-ish backbone plus extra links gives many articulation points and blocks
